@@ -64,7 +64,12 @@ def gen_plan_c07(seed, index, tier="quick"):
                 offsets = {str(p): next(serial) * 10 for p in r.sample(range(nparts), r.randint(1, nparts))}
                 if r.random() < 0.2:
                     tasks = []  # a consume-transform-produce round whose output was filtered out
-            txns.append({"tasks": tasks, "offsets": offsets,
+            racer = None
+            if r.random() < 0.25:
+                # a task that keeps sending while the main task goes on to commit / abort
+                racer = {"p": r.randrange(nparts), "n": r.randint(2, 12), "pad": r.choice([0, 40, 120]),
+                         "start": r.choice([0.0, 0.001, 0.01])}
+            txns.append({"tasks": tasks, "offsets": offsets, "racer": racer,
                          "offsets_first": r.random() < 0.3,
                          "end": "commit" if r.random() < 0.7 else "abort",
                          "via": r.choice(["calls", "calls", "ctx"]),
@@ -435,6 +440,24 @@ def execute_one(plan):
                 failed = await offsets_step()
             if t["think"]:
                 await asyncio.sleep(t["think"])
+            racer_task = None
+            if t.get("racer") and failed is None:
+                rc = t["racer"]
+
+                async def racer_body(rc=rc):
+                    await asyncio.sleep(rc["start"])
+                    for _ in range(rc["n"]):
+                        cur_txn = mon.current.get(pid)
+                        try:
+                            # a send racing with commit / abort is either refused or belongs to
+                            # the transaction that was open when it was accepted
+                            await do_send(pid, producer, cur_txn, rc["p"], rc["pad"])
+                        except Exception:  # noqa: BLE001
+                            world.probe("racing_send_refused")
+                            await asyncio.sleep(0.001)
+
+                racer_task = asyncio.ensure_future(racer_body())
+                state.setdefault("racers", []).append(racer_task)
             want = t["end"]
             if failed is not None:
                 txn.error = failed
@@ -458,6 +481,8 @@ def execute_one(plan):
                 txn.outcome = "hang"
                 txn.where = want
                 return
+            if racer_task is not None:
+                await asyncio.wait([racer_task], timeout=bound)
             exc = task.exception()
             if exc is None:
                 txn.outcome = "committed" if want == "commit" else "aborted"
